@@ -12,17 +12,17 @@
 (*   boolean true/false     bytes "0x<lowercase hex>"                      *)
 (*   names and strings quoted verbatim up to the first 0x00 byte           *)
 (***************************************************************************)
-EXTENDS BinsonFormat, FmtTable
+EXTENDS BinsonFormat
+CONSTANT FmtF(_)      \* printf %f text of 8 IEEE bytes (FmtTable for the models, a trace-supplied table for traces)
 
 Chr(s) == CASE s = "{" -> 123 [] s = "}" -> 125 [] s = "[" -> 91 [] s = "]" -> 93 [] s = "," -> 44
             [] s = ":" -> 58 [] s = "q" -> 34 [] s = "-" -> 45 [] s = "0" -> 48 [] s = "x" -> 120
 TrueTxt == <<116, 114, 117, 101>>
 FalseTxt == <<102, 97, 108, 115, 101>>
 HexChr(d) == IF d < 10 THEN 48 + d ELSE 87 + d
-RECURSIVE HexTxt(_)
-HexTxt(bs) == IF bs = <<>> THEN <<>> ELSE <<HexChr(Head(bs) \div 16), HexChr(Head(bs) % 16)>> \o HexTxt(Tail(bs))
-RECURSIVE UptoNul(_)
-UptoNul(bs) == IF bs = <<>> \/ Head(bs) = 0 THEN <<>> ELSE <<Head(bs)>> \o UptoNul(Tail(bs))
+HexTxt(bs) == [k \in 1..(2 * Len(bs)) |-> LET b == bs[(k + 1) \div 2] IN IF k % 2 = 1 THEN HexChr(b \div 16) ELSE HexChr(b % 16)]
+UptoNul(bs) == LET z == {i \in 1..Len(bs) : bs[i] = 0} IN
+               IF z = {} THEN bs ELSE SubSeq(bs, 1, (CHOOSE i \in z : \A j \in z : i <= j) - 1)
 Quoted(bs) == <<34>> \o UptoNul(bs) \o <<34>>
 
 \* ---- decimal text of an 8-byte little-endian two's complement integer ------
